@@ -25,7 +25,7 @@ LEVEL = "exploration"
 NEEDS_RUST = True
 WORKERS = 12
 CASE_TIMEOUT = 600
-REQUIRED_OBS = ["crafted_cases", "escaping_paths_tried", "fs_calls_observed", "rejections"]
+REQUIRED_OBS = ["crafted_cases", "escaping_paths_tried", "fs_calls_observed", "rejections", "relative_root_cases"]
 RULE = ("path grammar (components a, ., .., empty, repeated '/', absolute, deep, trailing '/', shards_list.json in odd "
         "places; targets existing and missing) substituted into every path-valued metadata field (split list path, "
         "child list path, shard file path, relative_path_self) of fb/npz/tfrec datasets and into the writer's "
@@ -81,6 +81,9 @@ def gen_cases(tier: str, seed: int) -> list[dict]:
         for name, path in productions(rng, "w", tier):
             batch.append({"kind": "writer", "field": "subdir", "prod": name, "path": path.rsplit("/w", 1)[0] or "."})
         rng.shuffle(batch)
+        # one dataset per batch is opened by a path relative to the working directory, which then changes
+        for k in range(0, len(batch), 24):
+            batch.insert(k, {"kind": "relative-root", "field": "relative_root", "prod": "cwd:chdir", "path": "."})
         size = 24
         for k in range(0, len(batch), size):
             cases.append({"fmt": fmt, "comp": comp, "items": batch[k:k + size], "optimize": (k // size) % 2 == 1})
@@ -127,6 +130,9 @@ def craft(zone: Path, base: Path, item: dict, fmt: str) -> dict:
     top = json.loads(list_path.read_text())
     if item["kind"] == "writer":
         return {"subdir": path}
+    if item["kind"] == "relative-root":
+        shutil.copytree(base, outside / "root")        # another dataset under the same relative name
+        return {"path": "."}
     if item["field"] == "split_list":
         info["splits"]["train"]["shard_list_info_file"]["file_path"] = path
         info_path.write_text(dump(info))
@@ -200,6 +206,10 @@ def run_case(case: dict) -> dict:
                 obs["cases_without_trace"] += 1
             touched = set()
             for _pid, call, path, ret in observed:
+                if item["kind"] == "relative-root" and (call == "chdir" or not path.startswith(str(outside / "root"))):
+                    # the harness's own change of directory; TensorFlow probing "<argv0>.runfiles" relative to the
+                    # working directory is not the library reading dataset files - only the other dataset counts
+                    continue
                 if is_escape(path, zone, root):
                     touched.add((call, path.replace(str(zone), "<zone>"), ret.split(" ")[0]))
             for event, path in audit_by_label.get(label, []):
@@ -213,6 +223,12 @@ def run_case(case: dict) -> dict:
             if escaping:
                 obs["escaping_paths_tried"] += 1
                 sigs.append([fmt, field, item["prod"]])
+            if item["kind"] == "relative-root":
+                obs["relative_root_cases"] += 1
+                failed = [k for k, v in outcome.items() if v.startswith("raised")]
+                if failed:
+                    violations.append({"key": "relative-root-dataset-fails-after-chdir",
+                                       "msg": f"{fmt}: opened by a relative path, used after a chdir: {({k: outcome[k] for k in failed})}"})
             if touched:
                 violations.append({"key": f"touched-outside-root/{field}/{item['prod'].split(':')[0]}",
                                    "msg": f"{fmt} {field}={item['path']!r}: {sorted(touched)[:4]} outcome={outcome}"})
